@@ -1187,3 +1187,23 @@ func paramAlwaysConstString(c *core.Ctx, fn *core.Func, obj types.Object) bool {
 	}
 	return n > 0
 }
+
+// reachUnder returns the vertices reachable from the entry of g on paths
+// that never take a branch edge whose facts contradict the given
+// assumption (decided by the implication engine; an edge the engine cannot
+// decide stays).
+func reachUnder(c *core.Ctx, fn *core.Func, g *core.Graph, assume ...core.Atom) map[*core.V]bool {
+	var avoid []core.EdgeRef
+	for _, bv := range g.BranchVertices() {
+		if bv.Cond.Expr == nil {
+			continue
+		}
+		for _, l := range []core.EdgeLabel{core.EdgeTrue, core.EdgeFalse} {
+			atoms := append(append([]core.Atom{}, assume...), bv.Implied(l)...)
+			if sat, decided := c.Prog.Satisfiable(core.Formula{Fn: fn, Atoms: atoms}); decided && !sat {
+				avoid = append(avoid, core.EdgeRef{From: bv, Label: l})
+			}
+		}
+	}
+	return g.ReachFrom(g.Entry, true, core.AvoidEdges(avoid...))
+}
